@@ -139,3 +139,34 @@ theorem steps_bounded_credit (S : Sys σ α) (Φ : σ → Nat) (P : α → Bool)
         simp [List.filter, hp, Nat.mul_add]; omega
 
 end Wm.Lts
+
+namespace Wm.Lts
+variable {σ α : Type}
+
+/-- potential argument with a credit per action: internal steps (`P`) lower the potential by at least one, any other
+    action `a` raises it by at most `c a` -/
+theorem steps_bounded_credit_fn (S : Sys σ α) (Φ : σ → Nat) (P : α → Bool) (c : α → Nat)
+    (hdec : ∀ s a s', Reach S s → S.act s a = some s' → P a = true → Φ s' + 1 ≤ Φ s)
+    (hcred : ∀ s a s', Reach S s → S.act s a = some s' → P a = false → Φ s' ≤ Φ s + c a) :
+    ∀ (run : List α) (s s' : σ), Reach S s → exec S s run = some s' →
+      (run.filter P).length + Φ s' ≤ Φ s + ((run.filter (fun a => !P a)).map c).sum := by
+  intro run
+  induction run with
+  | nil => intro s s' _ h; simp [exec] at h; subst h; simp
+  | cons a rest ih =>
+    intro s s' hr h
+    simp only [exec] at h
+    cases hact : S.act s a with
+    | none => simp [hact] at h
+    | some s1 =>
+      simp [hact] at h
+      have := ih s1 s' (Reach.step hr hact) h
+      cases hp : P a with
+      | true =>
+        have := hdec _ _ _ hr hact hp
+        simp [List.filter, hp]; omega
+      | false =>
+        have := hcred _ _ _ hr hact hp
+        simp [List.filter, hp]; omega
+
+end Wm.Lts
